@@ -111,6 +111,8 @@ func runawayKeyName(g Group) string {
 		return "expr"
 	case "stress":
 		return "stress"
+	case "ctx":
+		return "run-context"
 	}
 	return "template"
 }
@@ -228,7 +230,13 @@ func (o *orchestrator) runGroup(g Group) error {
 				if d.Upto > upto {
 					upto = d.Upto
 				}
-			}, func(int) time.Duration { return o.lim.short })
+			}, func(int) time.Duration {
+				if g.Kind == "ctx" {
+					// a context is a whole history with its corpus, not one small evaluation
+					return o.lim.full
+				}
+				return o.lim.short
+			})
 			if used := o.child.cpu() - cpuBefore; used > 0 {
 				c.Add(cpuKey, used.Milliseconds())
 			} else if fail != nil {
@@ -444,6 +452,7 @@ func guards(r *mc.Result, tier string) []string {
 			f = append(f, "never observed: "+fact)
 		}
 	}
+	f = append(f, ctxGuards(r, tier, runaway)...)
 	for _, o := range []string{"call:error", "call:arity-error", "call:text", "call:number", "call:object", "call:array", "call:null", "form:number", "form:boolean", "form:error"} {
 		if r.Outcomes[o] == 0 {
 			f = append(f, "outcome never observed: "+o)
@@ -542,16 +551,19 @@ func init() {
 			"(i) every function of functions.XFUNCTIONS and test of cases.XTESTS called through XFunction.Call at every arity 0..5 under 2 environments with every tuple of a %d-value boundary alphabet (all values at arity <= 3; quick: a %d-value core at arity 4 and %d values at arity 5; thorough: all values at arity 4, the core at arity 5); every non-error result is also rendered as text and as JSON; "+
 			"(ii) the %d operator / lookup / call forms of the expression tree on every pair (unary: every value) through Evaluator.Expression; "+
 			"(iii) every template string of length <= 6 (thorough 7) over the %d-symbol alphabet, every string of <= %d tokens over a %d-token vocabulary inside @( ), and %d generated families of deep / long templates (<= 400 bytes), each through Evaluator.Template (with and without escaping), Evaluator.TemplateValue and run.EvaluateTemplate / EvaluateTemplateValue / EvaluateTemplateText of a real waiting run; "+
-			"(iv) a webhook-JSON number with a huge exponent as an argument of every function and form. "+
+			"(iv) a webhook-JSON number with a huge exponent as an argument of every function and form; "+
+			"(v) templates in run contexts built by the engine from a history: %d flow shapes (call_webhook with / without a saved result, call_resthook, the call inside a child flow; msg / manual / flow_action triggers, a contact with a ticket - every root of the context is non-nil somewhere) each [call] -> [corpus] -> [wait] -> [corpus], x %d HTTP answers (the JSON documents null / true / false / 0 / \"\" / [] / {} / [null] / nested with null members, null with blanks, JSON only after cleaning, a text too long to be saved with the result, empty / non-JSON / truncated bodies, 400 and 410 statuses, a connection error) x {session kept in memory, session marshalled and read back before the resume}; the corpus is derived at run time from the context itself: every property path of the root context of every run down to depth %d (thorough %d), before and after the resume, under %d forms (reference, json(), default(), missing property, index, count, & \"\", = itself); it is evaluated directly through run.EvaluateTemplateValue / EvaluateTemplateText on every run of the waiting session, and by the engine through run.EvaluateTemplate (one send_email per template) in the sprint of the call and in the resumed sprint. "+
 			"Oracle: no panic (recovered and keyed by function and panic site), returns within the CPU limit, stays below the memory cap, run.EvaluateTemplate* report failure exactly when they log an error event. "+
 			"distinct_nontrivial counts calls that were not rejected by the argument-count wrapper, form evaluations, and templates that contain at least one expression or identifier (every enumerated case is distinct by construction).",
-			nf, nt, len(Alphabet), len(Core12), len(Mini6), len(Forms), len(CharAlphabet), MaxTokens, len(TokenVocab), len(StressFamilies)),
+			nf, nt, len(Alphabet), len(Core12), len(Mini6), len(Forms), len(CharAlphabet), MaxTokens, len(TokenVocab), len(StressFamilies),
+			len(CtxFlows), len(CtxAnswers), CtxDepth("quick"), CtxDepth("thorough"), len(CtxForms)),
 		Assumptions: []string{
 			"small-scope: argument tuples come from the stated boundary alphabet, strings from the stated alphabets and lengths; operators have no registry, so the list of forms is written down in the check (a new operator must be added there)",
 			"every case runs in an isolated child process under a 4 GiB address-space cap; a case (all inputs <= 400 bytes) that burns more than 20 s (quick) / 60 s (thorough) of CPU without returning is a hang, one that exhausts the cap is a crash of the host; CPU time, not wall-clock, is measured so that load from other jobs does not change verdicts",
 			"every case first gets 0.12 s of CPU; one that needs more is re-run alone under the full limit; once a runaway class (function x argument-position class) is confirmed at the full limit, further cases of the same class that exceed 0.12 s are counted under that class's key without being re-confirmed",
 			"calls whose result is legitimately large (repeat, foreach) are judged by the same limits: producing up to the memory cap takes far less than the CPU limit",
 			"clock, UUID and random sources are owned by the harness (random draws fixed at the bottom / top of the range per environment)",
+			"run contexts (v): the flow shapes, HTTP answers and template forms are written down in the check; the property paths are read from the real context objects at run time (a new root or property is covered without editing the check); a context is a whole history and gets the full CPU limit; the contact always replies with the same message",
 		},
 		Run:         run,
 		Replay:      replayFn,
